@@ -159,3 +159,35 @@ pub fn pdu_from_ev(e: &Ev) -> Result<Pdu, String> {
         },
     }))
 }
+
+/// The same event in a "twin" room: every user ID replaced through `map` (sender, state key and
+/// every occurrence in the content), everything else - including the room ID and the event IDs -
+/// unchanged. Used to run an unrelated resolution between two resolutions of the real room.
+pub fn twin_pdu(p: &SimPdu, map: &[(String, String)]) -> Option<Pdu> {
+    // longest first, through placeholders, so that one user ID being a prefix of another is harmless
+    let mut order: Vec<usize> = (0..map.len()).collect();
+    order.sort_by_key(|&i| std::cmp::Reverse(map[i].0.len()));
+    let swap = |text: &str| -> String {
+        let mut t = text.to_string();
+        for &i in &order {
+            t = t.replace(&map[i].0, &format!("\u{1}{i}\u{2}"));
+        }
+        for &i in &order {
+            t = t.replace(&format!("\u{1}{i}\u{2}"), &map[i].1);
+        }
+        t
+    };
+    let content = serde_json::value::RawValue::from_string(swap(p.content.get())).ok()?;
+    Some(Arc::new(SimPdu {
+        id: p.id.clone(),
+        room_id: p.room_id.clone(),
+        sender: OwnedUserId::try_from(swap(p.sender.as_str())).ok()?,
+        ts: p.ts,
+        ty: p.ty.clone(),
+        content,
+        state_key: p.state_key.as_ref().map(|k| swap(k)),
+        prev: p.prev.clone(),
+        auth: p.auth.clone(),
+        redacts: p.redacts.clone(),
+    }))
+}
